@@ -120,6 +120,15 @@ def strategy_(draw):
         # query, new parameter value, unrelated initial guess, query: both edits must be honoured together
         d = draw(st.sampled_from(cands_))
         ops += [["sample"], ["set_value", d["name"], [draw(gen.small()) for _ in range(d["rows"] * d["cols"])]], ["set_initial", ctrl_[0]["name"], draw(gen.small())]]
+    if cur_dc and draw(st.integers(0, 2)) == 0:
+        # a constraint on the collocation points, a query, clear_constraints, a query: nothing of it may survive
+        tsig_ = gen.leaves_of([d for d in sp["states"] if not d.get("quad")])
+        ops += [["subject_to", {"lhs": [draw(st.sampled_from(tsig_))], "rel": "<=", "rhs": [E.C(draw(gen.small()))], "grid": "integrator_roots"}], ["sample"], ["clear_constraints"]]
+    if draw(st.integers(0, 3)) == 0:
+        # solve, then the same options dictionary edited in place and handed over again, then solve: the new limit must apply
+        k1 = draw(st.integers(1, 3))
+        k2 = draw(st.sampled_from([k for k in (0, 1, 2, 3) if k != k1]))
+        ops += [["solver", {"ipopt.max_iter": k1}, False], ["solve"], ["solver", {"ipopt.max_iter": k2}, True], ["solve"]]
     ops.append(["jacobian"])
     return {"spec": sp, "ops": ops, "rng": draw(st.integers(0, 2**31 - 1))}
 
